@@ -53,7 +53,42 @@ type tr struct {
 	rename map[string]string   // Go expression text -> Coq variable
 	locals map[string]bool     // variables introduced by :=
 	subst  map[string]ast.Expr // locals bound to an expression the translator has no value for (inlined where used)
+	nonNil map[string]bool     // pointer expressions known to be non-nil on the current path
+	derefs map[string]string   // pointer expression text -> Coq name of the pointed-to value
+	guards map[string]string   // renamed expression text -> pointer that must be non-nil where it is evaluated
 	err    error
+}
+
+// nilFacts: the pointer expressions a condition establishes as non-nil in its then / else branch
+// (only the plain forms `p != nil`, `p == nil`).
+func nilFacts(c ast.Expr) (thenFacts, elseFacts []string) {
+	if b, ok := c.(*ast.BinaryExpr); ok && exprText(b.Y) == "nil" {
+		switch b.Op {
+		case token.NEQ:
+			return []string{exprText(b.X)}, nil
+		case token.EQL:
+			return nil, []string{exprText(b.X)}
+		}
+	}
+	return nil, nil
+}
+
+func (t *tr) withNonNil(facts []string, f func() string) string {
+	var added []string
+	for _, p := range facts {
+		if !t.nonNil[p] {
+			if t.nonNil == nil {
+				t.nonNil = map[string]bool{}
+			}
+			t.nonNil[p] = true
+			added = append(added, p)
+		}
+	}
+	out := f()
+	for _, p := range added {
+		delete(t.nonNil, p)
+	}
+	return out
 }
 
 // text is exprText with the inlined locals expanded, so that `n := msg.RandomNonce` followed by
@@ -79,6 +114,12 @@ func (t *tr) text(e ast.Expr) string {
 			args = append(args, t.text(a))
 		}
 		return t.text(x.Fun) + "(" + strings.Join(args, ",") + ")"
+	case *ast.BinaryExpr:
+		return t.text(x.X) + " " + x.Op.String() + " " + t.text(x.Y)
+	case *ast.UnaryExpr:
+		return x.Op.String() + t.text(x.X)
+	case *ast.ParenExpr:
+		return "(" + t.text(x.X) + ")"
 	}
 	return fmt.Sprintf("%T", e)
 }
@@ -132,6 +173,9 @@ func exprText(e ast.Expr) string {
 
 func (t *tr) expr(e ast.Expr) string {
 	if v, ok := t.rename[t.text(e)]; ok {
+		if req, ok := t.guards[t.text(e)]; ok && !t.nonNil[req] {
+			return t.fail("%s is evaluated on a path where %s is not known to be non-nil", t.text(e), req)
+		}
 		return v
 	}
 	if id, ok := e.(*ast.Ident); ok {
@@ -175,6 +219,14 @@ func (t *tr) expr(e ast.Expr) string {
 	case *ast.UnaryExpr:
 		if x.Op == token.NOT {
 			return "(negb " + t.expr(x.X) + ")"
+		}
+	case *ast.StarExpr:
+		p := exprText(x.X)
+		if v, ok := t.derefs[p]; ok {
+			if !t.nonNil[p] {
+				return t.fail("dereference of %s on a path where it is not known to be non-nil", p)
+			}
+			return v
 		}
 	case *ast.CallExpr:
 		if id, ok := x.Fun.(*ast.Ident); ok && len(x.Args) == 1 {
@@ -292,10 +344,68 @@ func (t *tr) stmts(ss []ast.Stmt) string {
 		t.subst[id.Name] = s.Rhs[0]
 		return t.stmts(ss[1:])
 	case *ast.IfStmt:
-		if s.Init != nil || s.Else != nil {
+		if s.Init != nil {
 			return t.fail("unsupported if form")
 		}
-		return "if " + t.expr(s.Cond) + " then (" + t.stmts(s.Body.List) + ")\n  else (" + t.stmts(ss[1:]) + ")"
+		cond := t.expr(s.Cond)
+		// the statements after an if without else are its else branch (every path returns)
+		var elseStmts []ast.Stmt
+		switch e := s.Else.(type) {
+		case nil:
+			elseStmts = ss[1:]
+		case *ast.BlockStmt:
+			elseStmts = append(append([]ast.Stmt{}, e.List...), ss[1:]...)
+		case *ast.IfStmt:
+			elseStmts = append([]ast.Stmt{e}, ss[1:]...)
+		default:
+			return t.fail("unsupported else form")
+		}
+		thenFacts, elseFacts := nilFacts(s.Cond)
+		a := t.withNonNil(thenFacts, func() string { return t.stmts(append(append([]ast.Stmt{}, s.Body.List...), ss[1:]...)) })
+		b := t.withNonNil(elseFacts, func() string { return t.stmts(elseStmts) })
+		return "if " + cond + " then (" + a + ")\n  else (" + b + ")"
+	case *ast.SwitchStmt:
+		// a tagless switch is an if / else-if chain in source order, default last
+		if s.Init != nil || s.Tag != nil {
+			return t.fail("unsupported switch form")
+		}
+		var chain ast.Stmt
+		var deflt []ast.Stmt
+		var clauses []*ast.CaseClause
+		for _, c := range s.Body.List {
+			cc := c.(*ast.CaseClause)
+			for _, st := range cc.Body {
+				if br, ok := st.(*ast.BranchStmt); ok && (br.Tok == token.FALLTHROUGH || br.Tok == token.BREAK) {
+					return t.fail("unsupported branch statement in a switch")
+				}
+			}
+			if cc.List == nil {
+				deflt = cc.Body
+			} else if len(cc.List) == 1 {
+				clauses = append(clauses, cc)
+			} else {
+				return t.fail("unsupported case list")
+			}
+		}
+		var tail ast.Stmt
+		if deflt != nil {
+			tail = &ast.BlockStmt{List: deflt}
+		}
+		for i := len(clauses) - 1; i >= 0; i-- {
+			is := &ast.IfStmt{Cond: clauses[i].List[0], Body: &ast.BlockStmt{List: clauses[i].Body}}
+			if tail != nil {
+				is.Else = tail
+			}
+			tail = is
+		}
+		chain = tail
+		if chain == nil {
+			return t.stmts(ss[1:])
+		}
+		if b, ok := chain.(*ast.BlockStmt); ok {
+			return t.stmts(append(append([]ast.Stmt{}, b.List...), ss[1:]...))
+		}
+		return t.stmts(append([]ast.Stmt{chain}, ss[1:]...))
 	case *ast.IncDecStmt:
 		// a state update after the decision; the decision is what is translated
 		return t.stmts(ss[1:])
@@ -329,60 +439,32 @@ func translateIsForkActive(fd *ast.FuncDecl) (string, error) {
 		return bad("parameters")
 	}
 	ov, ch, ce := params[0], params[1], params[2]
-	body := fd.Body.List
-	if len(body) != 3 {
-		return bad(fmt.Sprintf("%d top-level statements", len(body)))
+	// The function is translated statement by statement over "flat" arguments: presence flags of
+	// the three pointers and the pointed-to values (used only under the corresponding nil
+	// guard - a dereference outside its guard is refused, it would be a nil-pointer panic).
+	t := &tr{
+		rename: map[string]string{
+			ov + " != nil": "ov", ov + " == nil": "(negb ov)",
+			ov + ".Height != nil": "ovh", ov + ".Height == nil": "(negb ovh)",
+			ov + ".Eon != nil": "ove", ov + ".Eon == nil": "(negb ove)",
+			recv + ".Enabled": "en", recv + ".Height": "h", ch: "ch", ce: "ce",
+		},
+		derefs: map[string]string{ov + ".Height": "oh", ov + ".Eon": "oe"},
+		guards: map[string]string{
+			ov + ".Height != nil": ov, ov + ".Height == nil": ov, ov + ".Eon != nil": ov, ov + ".Eon == nil": ov,
+		},
 	}
-	ifOv, ok := body[0].(*ast.IfStmt)
-	if !ok || exprText(ifOv.Cond) != "*ast.BinaryExpr" {
-		// exprText does not render binary expressions; check by structure
-	}
-	cond, ok := ifOv.Cond.(*ast.BinaryExpr)
-	if !ok || cond.Op != token.NEQ || exprText(cond.X) != ov || exprText(cond.Y) != "nil" || ifOv.Else != nil {
-		return bad("first statement is not `if override != nil`")
-	}
-	in := ifOv.Body.List
-	if len(in) != 3 {
-		return bad("override block")
-	}
-	t := &tr{rename: map[string]string{ch: "cur_height", ce: "cur_eon", "*" + ov + ".Height": "oh", "*" + ov + ".Eon": "oe",
-		recv + ".Enabled": "enabled", recv + ".Height": "height"}}
-	part := func(s ast.Stmt, field string) (string, bool) {
-		is, ok := s.(*ast.IfStmt)
-		if !ok || is.Else != nil || len(is.Body.List) != 1 {
-			return "", false
-		}
-		c, ok := is.Cond.(*ast.BinaryExpr)
-		if !ok || c.Op != token.NEQ || exprText(c.X) != ov+"."+field || exprText(c.Y) != "nil" {
-			return "", false
-		}
-		r, ok := is.Body.List[0].(*ast.ReturnStmt)
-		if !ok || len(r.Results) != 1 {
-			return "", false
-		}
-		return t.expr(r.Results[0]), true
-	}
-	hExpr, ok1 := part(in[0], "Height")
-	eExpr, ok2 := part(in[1], "Eon")
-	r3, ok3 := in[2].(*ast.ReturnStmt)
-	if !ok1 || !ok2 || !ok3 || len(r3.Results) != 1 {
-		return bad("override block statements")
-	}
-	none := t.expr(r3.Results[0])
-	rest := t.stmts(body[1:])
+	// override.X may only be inspected where override itself is non-nil
+	body := t.stmts(fd.Body.List)
 	if t.err != nil {
-		return "", t.err
+		return "", fmt.Errorf("IsForkActive: %v", t.err)
 	}
-	// eon comparisons are on N in the model: re-scope
-	eExpr = strings.ReplaceAll(eExpr, "<=?", "<=?")
-	return fmt.Sprintf(`Definition gen_is_fork_active (override : option (option Z * option N)) (enabled : bool) (height cur_height : Z) (cur_eon : N) : bool :=
-  match override with
-  | Some (Some oh, _) => %s
-  | Some (None, Some oe) => (%s)%%N
-  | Some (None, None) => %s
-  | None => %s
-  end.
-`, hExpr, eExpr, none, rest), nil
+	var sb strings.Builder
+	sb.WriteString("(* ForkHeight.IsForkActive, statement by statement: ov / ovh / ove = the override, its Height and its Eon\n   pointer are non-nil; oh / oe the values they point to (read only under the nil guard) *)\n")
+	fmt.Fprintf(&sb, "Definition gen_is_fork_active_flat (ov ovh ove en : bool) (oh oe h ch ce : Z) : bool :=\n  %s.\n\n", body)
+	sb.WriteString("Definition gen_is_fork_active (override : option (option Z * option N)) (enabled : bool) (height cur_height : Z) (cur_eon : N) : bool :=\n")
+	sb.WriteString("  gen_is_fork_active_flat\n    (match override with Some _ => true | None => false end)\n    (match override with Some (Some _, _) => true | _ => false end)\n    (match override with Some (_, Some _) => true | _ => false end)\n    enabled\n    (match override with Some (Some v, _) => v | _ => 0 end)\n    (match override with Some (_, Some v) => Z.of_N v | _ => 0 end)\n    height cur_height (Z.of_N cur_eon).\n")
+	return sb.String(), nil
 }
 
 func genAppConsts(repo string) (string, error) {
